@@ -17,6 +17,6 @@ one() {
   echo "$id: $(grep '^VIOLATION' negative/$id/checks_now.txt | sed 's/.*property=\([A-Z0-9]*\).*/\1/' | tr '\n' ' ')"
 }
 export -f one
-ls negative | grep "$SUB" | xargs -P $J -I{} bash -c 'one {}'
+ls -d negative/*/ | xargs -n1 basename | grep "$SUB" | xargs -P $J -I{} bash -c 'one {}'
 git -C /repo worktree prune
 rmdir /tmp/nx 2>/dev/null
